@@ -5,6 +5,7 @@ import (
 	"go/constant"
 	"go/token"
 	"go/types"
+	"os"
 	"strings"
 	"sync"
 
@@ -373,11 +374,25 @@ func (g *G) callSSA(fn *ssa.Function, args []Value, env []Value, pos token.Pos) 
 	return fr.result
 }
 
+// block coverage of the library code by the harnesses (GOSYM_COVER=<file>): which SSA blocks of non-harness
+// mangos functions were executed on some explored path
+type coverKey struct {
+	fn  *ssa.Function
+	blk int
+}
+
+var coverOn = os.Getenv("GOSYM_COVER") != ""
+var coverBlocks sync.Map
+
 func (g *G) runFrame(fr *Frame) {
 	vm := g.vm
 	unwind := vm.cfg.Unwind
+	cov := coverOn && fr.fn.Pkg != nil && strings.HasPrefix(fr.fn.Pkg.Pkg.Path(), modPath) && !strings.Contains(fr.fn.Pkg.Pkg.Path(), "/zzverif")
 	for fr.block != nil {
 		b := fr.block
+		if cov {
+			coverBlocks.Store(coverKey{fr.fn, b.Index}, true)
+		}
 		fr.visits[b.Index]++
 		if fr.visits[b.Index] > unwind {
 			if vm.lazyMode {
